@@ -146,6 +146,12 @@ def cases(shard, nshards, seed, tier):
     name, n, pairs = gen2d.thousand_stems()
     if mine():
         yield {"family": "hostile", "name": name, "n": n, "pairs": pairs}
+    # isolated pairs that shape the level assignment: a 2-bp stem crossed by four single pairs; a 3-bp and a 2-bp
+    # stem crossing each other with single pairs tipping the balance
+    for nm, n_, pr in (("stem2-crossed-by-4-singles", 22, [(1, 14), (3, 16), (5, 18), (7, 20), (9, 13), (10, 12)][:4] + [(9, 22), (10, 21)]),
+                       ("stems-3-and-2-plus-singles", 26, [(1, 12), (2, 11), (3, 10), (6, 18), (7, 17), (14, 22), (15, 24), (20, 26)])):
+        if mine():
+            yield {"family": "hostile", "name": nm, "n": n_, "pairs": sorted(pr)}
     nrand = 1500 if tier == "quick" else 30000
     for i in range(nrand):
         if not mine():
@@ -219,7 +225,7 @@ def run_case(case, rec):
         b.dot_bracket
     except Exception:
         pass
-    if pairs and int(core.chash(case)[:2], 16) % 3 == 0:
+    if pairs and (int(core.chash(case)[:2], 16) % 3 == 0 or case.get("family") == "hostile"):
         _other_routes(n, pairs, f, rec)
     if f["knotted"] and chash_bit(case):
         # the explicit-solver entry point, on a fresh object
@@ -271,6 +277,18 @@ def _other_routes(n, pairs, f, rec):
         judge("dot_bracket of BpSeq.from_string(text)", snap, b.dot_bracket, None)
     except Exception:
         pass
+    # derived objects: `the` notation of the structure without isolated pairs / without pseudoknots is judged as the
+    # notation of THAT structure (the source's notation has been computed before, as a caller printing both would)
+    try:
+        src = mon2d.make_bpseq(n, pairs)
+        src.dot_bracket
+        for how in ("without_isolated", "without_pseudoknots"):
+            d = getattr(src, how)()
+            snap = mon2d.snapshot(d)
+            rec.count("route:" + how)
+            judge("dot_bracket of " + how + "()", snap, d.dot_bracket, None)
+    except Exception as e:
+        rec.violation("optimal.no-crash", {"route": "derived", "exception": repr(e)[:200]}, mechanism=f"crash:{type(e).__name__}:derived")
 
 
 def _clique_cbc():
